@@ -55,10 +55,26 @@ PROPS = {
         "technique": "Lean 4 proofs (case analysis + omega) + regenerated validation fact + differential correspondence",
         "explanation": "All branches of CalculateBaseFee / EndBlock modelled and proved; the real keeper is run on boundary sweeps around the target and compared with the compiled Lean driver; independent big.Int monitors check formula, bounds and adjacent-g monotonicity.",
     },
+    "C13": {
+        "id": "C13",
+        "lean_modules": ["HaqqModel.Props.C13"],
+        "level": "proof",
+        "trusted_base": COMMON_TRUST + [
+            "modelled, not verified: cosmossdk.io/math LegacyDec (Mul/Quo/RoundInt re-implemented in Prelude/Dec.lean step by step and compared on every run), Go time.Year() (civilYear re-implemented, compared on every run), bank MintCoins/SendCoinsFromModuleToModule, params subspace, staking TotalBondedTokens as an input",
+        ],
+        "assumptions": [
+            "the fixed-point pipeline is the specification (the statement says 'evaluated in 18-decimal fixed point')",
+            "bonded, supply and max supply are read once per block as the code does; other modules may change the supply between blocks",
+        ],
+        "level_text": "Machine-checked proofs (Lean 4): nothing minted while disabled or on the first block after (re-)activation, the minted amount is the rounded fixed-point formula with elapsed = difference of consecutive block timestamps, supply never crosses the maximum (crossing block mints exactly the remainder and switches off), everything minted goes to the fee collector, leap-year rule; facts (timestamp reset while disabled, mint-then-forward order) regenerated from the source; model tied to the real MintAndAllocate/EndBlocker by a differential run over arbitrary magnitudes.",
+        "level_note": "Trusted: Lean kernel; go/ast extractor; correspondence harness (the real keeper code runs over stub bank/staking keepers that record calls); LegacyDec and time.Year() are modelled and differential-tested.",
+        "technique": "Lean 4 proofs over a fixed-point model + regenerated facts + differential correspondence",
+        "explanation": "MintAndAllocate and EndBlocker modelled including the negative and cap branches; rounding lemmas prove the cap; block histories with enable/disable/cap changes run on the real keeper code and are compared with the compiled Lean driver; independent big.Int monitors recompute the formula from consecutive timestamps.",
+    },
 }
 
 # properties not (yet) claimed, each with a reason; entries disappear as checks are built
 NOT_APPLICABLE = {pid: "check not built yet in this session (planned: see DESIGN.md §5)" for pid in
-                  ["C01", "C02", "C03", "C04", "C05", "C06", "C07", "C08", "C10", "C11", "C13", "C14", "C15", "C16", "C18", "C19", "C20"]}
+                  ["C01", "C02", "C03", "C04", "C05", "C06", "C07", "C08", "C10", "C11", "C14", "C15", "C16", "C18", "C19", "C20"]}
 
 HOOK_COMMITS = []
